@@ -26,6 +26,8 @@ def lib():
         from auditok import io as aio
 
         _L.update(auditok=auditok, core=core, util=util, io=aio, AR=core.AudioRegion)
+        # AudioRegion.split_and_plot (alias splitp) splits, draws, and returns the regions: the drawing is stubbed out
+        core.plot = lambda *a, **k: None
     return _L
 
 
@@ -122,6 +124,10 @@ def c05_case(sw, ch, rate, W, aw, flags, tail, tail_flag, mn, mx, ms, mode, as_r
         if as_region == 2:
             # a region that itself carries a start time (e.g. one yielded by an earlier split)
             regs = list(L["core"].split(L["AR"](data, rate, sw, ch, 2.5), **kw))
+        elif as_region == 8:
+            # the third documented way of splitting a region: split_and_plot / splitp (drawing stubbed out)
+            reg_ = L["AR"](data, rate, sw, ch)
+            regs = list((reg_.splitp if mn % 2 else reg_.split_and_plot)(show=False, **kw))
         elif as_region == 6:
             # ... split again with its own method (two-pass segmentation): times count from the beginning of THAT input
             regs = list(L["AR"](data, rate, sw, ch, 2.5).split(**kw))
@@ -185,7 +191,7 @@ def c05_work(task):
                     if tail and (i + stripe) % 3:
                         continue  # partial last windows: every third tuple (all tuples get every tail over the patterns)
                     cov["evaluations"] += 1
-                    how = 5 if i % 40 == 7 else (6 if i % 10 == 6 else (7 if i % 10 == 3 else i % 5))
+                    how = 5 if i % 40 == 7 else (6 if i % 10 == 6 else (7 if i % 10 == 3 else (8 if i % 10 == 9 else i % 5)))
                     msg = c05_case(sw, ch, rate, W, aw, flags, tail, tf, mn, mx, ms, mode, as_region=how)
                     if any(flags) or tf:
                         cov["distinct_nontrivial"] += 1
@@ -340,14 +346,17 @@ PROBE_MODES = (0, 4, 8, 9, 10)  # main probe with trailing silence kept / droppe
 
 
 def c06_variant(*parts):
-    """Which way the non-reader input is given (0: split(bytes), 1: AudioRegion.split, 2: trickling standard input)."""
-    return sum(len(str(p)) + sum(map(ord, str(p)[-2:])) for p in parts) % 3
+    """Which way the non-reader input is given (0: split(bytes), 1: AudioRegion.split, 2: trickling standard input,
+    3: AudioRegion.split_and_plot with the drawing stubbed out)."""
+    return sum(len(str(p)) + sum(map(ord, str(p)[-2:])) for p in parts) % 4
 
 
 def c06_split(data, rate, w_arg, kw, variant):
     L = lib()
     if variant == 1:
         return list(L["AR"](data, rate, 1, 1).split(analysis_window=w_arg, **kw))
+    if variant == 3:
+        return list(L["AR"](data, rate, 1, 1).split_and_plot(show=False, analysis_window=w_arg, **kw))
     if variant == 2:
         old = sys.stdin
         sys.stdin = FakeStdin(data, [max(1, int(w_arg * rate) - 1), 3])
@@ -1070,9 +1079,11 @@ def c09_work(task):
                 ref = regions_sig(core.split(data[: k * bps], **base_kw, **long_kw, **ap), rate)
                 for kw, nm in ((dict(max_read=t), "max_read"), (dict(mr=t), "mr"), (dict(max_read=t, mr=t / 2), "both-smaller"),
                                (dict(max_read=t, mr=2 * t + 0.3), "both-larger")):
-                    for kind in ("bytes", "wav_lazy", "wav", "raw", "raw_lazy", "buffer_source"):
-                        if nm.startswith("both") and kind == "raw_lazy":
+                    for kind in ("bytes", "wav_lazy", "wav", "raw", "raw_lazy", "buffer_source", "region_fn", "recorder_class"):
+                        if nm.startswith("both") and kind in ("raw_lazy", "recorder_class"):
                             continue
+                        if kind == "recorder_class" and nm != "max_read":
+                            continue  # the aliases are split()'s; the reader classes take max_read
                         cov["evaluations"] += 1
                         try:
                             if kind == "bytes":
@@ -1085,6 +1096,11 @@ def c09_work(task):
                                 got = regions_sig(core.split(rawf, large_file=True, **base_kw, **long_kw, **ap, **kw), rate)
                             elif kind == "buffer_source":
                                 got = regions_sig(core.split(aio.BufferAudioSource(data, rate, sw, ch), **base_kw, **long_kw, **kw), rate)
+                            elif kind == "region_fn":
+                                got = regions_sig(core.split(AR(data, rate, sw, ch), **base_kw, **long_kw, **kw), rate)
+                            elif kind == "recorder_class":
+                                rd_ = util.Recorder(data, block_dur=aw, **ap, **kw)
+                                got = regions_sig(core.split(rd_, energy_threshold=eth, use_channel=uc, **base_kw), rate)
                             else:
                                 got = regions_sig(core.split(wavf, large_file=True, **base_kw, **long_kw, **kw), rate)
                             msg = None if got == ref else "%s=%r on %s gives %r, the first %d samples give %r" % (
